@@ -23,6 +23,7 @@ typedef __float128 q_t;
 
 static const double V_PLAIN[] = { 0.0, 1.0, -1.0, 2.0, 1e9 + 1.0, 1e-3, 1e60 };
 static const double V_OFFSET[] = { 1e9, 1e9 + 1.0, 1e9 + 2.0, 1e9 + 3.0, 1e9 - 5.0 };
+static const double V_OFFSET12[] = { -1e12, -1e12 + 1.0, -1e12 + 2.0, -1e12 + 3.0, -1e12 - 5.0 };
 static const double W_SET[] = { 1.0, 0.0, 2.0, 0.5 };
 
 static const double *V;
@@ -186,16 +187,20 @@ static bool check_summary(const struct cmb_datasummary *s, const struct ref *r, 
         }
     }
     /* higher moments only for well-conditioned data (spread not negligible against the offset) */
-    const bool conditioned = r->var > 0 && (double)sqrtl((long double)r->var) > 1e-7 * r->amax;
+    /* (how far the one-pass updates can be off: rounding of the samples' distances from the running mean, i.e. the
+     * machine epsilon times offset over spread; beyond 5 % of that the comparison says nothing and is skipped) */
+    const double ill = r->var > 0 ? DBL_EPSILON * r->amax / (double)sqrtl((long double)r->var) : 1.0;
+    const bool conditioned = r->var > 0 && ill < 8e-4;
+    const double htol = 1e-6 + 64.0 * ill;
     if (r->count > 2 && conditioned) {
-        if (!close_rel(cmb_datasummary_skewness(s), r->skew, 1e-6, 1e-6)) {
+        if (!close_rel(cmb_datasummary_skewness(s), r->skew, htol, htol)) {
             snprintf(rule, sizeof rule, "%s:skewness:%s", what, shp);
             FAIL(rule, "skewness %.17g, exact %.17g", cmb_datasummary_skewness(s), (double)r->skew);
             return false;
         }
     }
     if (r->count > 3 && conditioned) {
-        if (!close_rel(cmb_datasummary_kurtosis(s), r->kurt, 1e-6, 1e-6)) {
+        if (!close_rel(cmb_datasummary_kurtosis(s), r->kurt, 4 * htol, 4 * htol)) {
             snprintf(rule, sizeof rule, "%s:kurtosis:%s", what, shp);
             FAIL(rule, "kurtosis %.17g, exact %.17g", cmb_datasummary_kurtosis(s), (double)r->kurt);
             return false;
@@ -634,6 +639,10 @@ static void ginit(void)
     }
     if (!strcmp(mode, "offset")) {
         V = V_OFFSET;
+        nV = 5;
+    }
+    else if (!strcmp(mode, "offset12")) {
+        V = V_OFFSET12;
         nV = 5;
     }
     else {
